@@ -72,7 +72,7 @@ Obs == /\ InRange /\ Ev.e = "x"
        /\ (Verbose => PrintT(<<"AT", l - h>>))
 
 Done == /\ l = EndOf(h) + 1 /\ \A t \in Threads : pend[t].op = "none"
-        /\ FinalOk(abs, h)
+        /\ ("p" \in DOMAIN Raw[h] \/ FinalOk(abs, h))     \* "p": completion of a partial history (abandoned execution): no final-state facts
         /\ PrintT(<<"ACC", Raw[h].id>>)
         /\ UNCHANGED vars
 
